@@ -22,7 +22,9 @@ void harness_rule(void)
 	scn_build_begin();
 	cJSON *add = mkreq("add", 1, path_params("ab", v));
 	scn_build_end();
+#ifndef FETCH_FIRST
 	__CPROVER_assume(dispatch(&A, add) == 0);
+#endif
 	/* operand byte fixed per obligation: a symbolic byte inside a string makes every strlen()/allocation size
 	   symbolic; all byte values are covered symbolically at the match functions themselves (C16.match_functions) */
 	char c = OPCHAR;
@@ -126,8 +128,20 @@ void harness_rule(void)
 		REACH("refused");
 	} else {
 		CHECK(!refused, "C16.well_formed_rule_accepted");
+#ifdef FETCH_FIRST
+		/* the element is added after the fetch: the rule is applied to the new element just the same */
+		CHECK(adds == 0, "C01.no_event_for_refused_request");
+		reset_log();
+		__CPROVER_assume(dispatch(&A, add) == 0);
+		adds = count_events(&B, 'a', "a");
+		resp = 0;
+#endif
 		CHECK(adds == (expect_match ? 1 : 0), "C16.rule_selects_exactly_the_matching_paths");
+#ifndef FETCH_FIRST
 		if (adds == 1) CHECK(LOG[0].kind == K_EVENT && LOG[0].value_int == v && resp == &LOG[nlog - 1], "C01.adds_for_existing_matches_precede_fetch_response");
+#else
+		if (adds == 1) CHECK(LOG[0].kind == K_EVENT && LOG[0].to == &B && LOG[0].value_int == v, "C01.add_event_carries_value_and_fetch_id");
+#endif
 		/* the subscription follows the rule for later events too */
 		reset_log();
 		scn_build_begin();
